@@ -21,13 +21,13 @@ EXTENDS Scan
 
 TraceLog == ndJsonDeserialize("c11_trace.ndjson")
 
-VARIABLES l, fid, done2, frec, base,
+VARIABLES l, fid, done2, frec, base, ebase,
           fby       \* the reports of the current input by uid (spec records)
-tvars == <<vars, l, fid, done2, frec, base, fby>>
+tvars == <<vars, l, fid, done2, frec, base, ebase, fby>>
 Rec == TraceLog[l]
 
 NoFile == [n |-> 0]
-TraceInit == InitC /\ l = 1 /\ fid = 0 /\ done2 = FALSE /\ frec = NoFile /\ base = <<>> /\ fby = <<>>
+TraceInit == InitC /\ l = 1 /\ fid = 0 /\ done2 = FALSE /\ frec = NoFile /\ base = <<>> /\ ebase = "" /\ fby = <<>>
 
 RangeS(s) == {s[k] : k \in 1..Len(s)}
 \* report record of the spec from a projected real report
@@ -36,30 +36,10 @@ Rp(r) == [uid |-> r.uid, cid |-> r.cid, path |-> r.path, sym |-> r.sym, owner |-
           anchor |-> r.anchor, diags |-> r.diags]
 FileJobs(f) == [j \in 1..Len(f.shape) |-> SelectSeq([k \in 1..Len(f.reports) |-> Rp(f.reports[k])], LAMBDA r : f.reports[r.uid].job = j)]
 
-\* the tree's cmpDiagnostics as observed by EXEC (File.alldiags): all diagnostics (fix 1d0c953, F17) or, on a tree
-\* without the fix, the first one only
-\* (both arguments are already sorted by SortReports' first loop; evaluated lazily here - cmp.Or evaluates all seven
-\* comparisons and takes the first non-zero one, which is the same value)
-CmpDiagnosticsT(all, sa, sb) ==
-  IF Len(sa) = 0 THEN 0 - 1 ELSE IF Len(sb) = 0 THEN 1
-  ELSE IF all THEN CmpSeqD(sa, sb, 1) ELSE CmpDiags(sa[1], sb[1])
-CmpReportsT(all, a, b) ==
-  IF a.path # b.path THEN Cmp(a.path, b.path)
-  ELSE IF a.first # b.first THEN Cmp(a.first, b.first)
-  ELSE IF a.last # b.last THEN Cmp(a.last, b.last)
-  ELSE IF a.sev # b.sev THEN Cmp(a.sev, b.sev)
-  ELSE IF a.rep # b.rep THEN Cmp(a.rep, b.rep)
-  ELSE IF a.sum # b.sum THEN Cmp(a.sum, b.sum)
-  ELSE CmpDiagnosticsT(all, a.diags, b.diags)
-RECURSIVE BubbleT(_, _, _)
-BubbleT(all, s, j) == IF j > 1 /\ CmpReportsT(all, s[j], s[j - 1]) < 0 THEN BubbleT(all, Swap(s, j, j - 1), j - 1) ELSE s
-RECURSIVE ISortT(_, _, _)
-ISortT(all, s, i) == IF i > Len(s) THEN s ELSE ISortT(all, BubbleT(all, s, i), i + 1)
-ProcessT(all, order) ==
-  LET col == CollectAll(order)
-      pre == [k \in 1..Len(col) |-> [col[k] EXCEPT !.diags = SortDiags(@)]]
-      srt == pre IN
-  [k \in 1..Len(srt) |-> [r |-> srt[k], dup |-> FALSE, dups |-> <<>>]]
+\* the tree's cmpDiagnostics as observed by EXEC (File.alldiags): all diagnostics (fix 1d0c953, F17/F18) or, on a
+\* tree without the fix, the first one only
+CmpReportsT(all, a, b) == CmpReportsV(all, a, b)
+ProcessT(all, order) == ProcessV(all, order)
 
 \* why the sort key may fail to separate two reports of different jobs
 PairKind(all, a, b, reps) ==
@@ -85,9 +65,18 @@ TFile ==
   /\ fid' = Rec.id /\ frec' = Rec /\ base' = <<>>
   /\ fby' = [u \in 1..Rec.n |-> Rp(Rec.reports[u])]
   /\ IF PremiseKinds(Rec) = {} THEN TRUE ELSE PrintT(<<"PREMISE", Rec.id, ToJson(PremiseKinds(Rec))>>)
-  /\ l' = l + 1 /\ UNCHANGED <<vars, done2>>
+  /\ l' = l + 1 /\ UNCHANGED <<vars, done2, ebase>>
 
-Sig(what) == [cfg |-> frec.cfg, rules |-> frec.rules, two |-> frec.two, what |-> what, kinds |-> PremiseKinds(frec)]
+\* the jobs executed in another order (files parsed afresh): what each (entry, check) job reports must not change
+TExec ==
+  /\ l <= Len(TraceLog) /\ Rec.ev = "Exec" /\ Rec.id = fid
+  /\ ebase' = IF Rec.base THEN Rec.h ELSE ebase
+  /\ IF Rec.base \/ Rec.h = ebase THEN TRUE
+     ELSE PrintT(<<"VIOL", fid, ToJson([cfg |-> frec.cfg, rules |-> frec.rules, two |-> frec.two, grp |-> frec.grp, kinds |-> {},
+                                        what |-> [exec |-> Rec.kind]])>>)
+  /\ l' = l + 1 /\ UNCHANGED <<vars, fid, done2, frec, base, fby>>
+
+Sig(what) == [cfg |-> frec.cfg, rules |-> frec.rules, two |-> frec.two, grp |-> frec.grp, what |-> what, kinds |-> PremiseKinds(frec)]
 
 TOrder ==
   /\ l <= Len(TraceLog) /\ Rec.ev = "Order" /\ Rec.id = fid
@@ -103,7 +92,7 @@ TOrder ==
         ELSE PrintT(<<"VIOL", fid, ToJson([Sig("order") EXCEPT !.what = [outputs |-> diffs, order |-> Rec.order, oid |-> Rec.oid]])>>)
      /\ IF reachable THEN TRUE
         ELSE PrintT(<<"DRIFT", fid, ToJson([what |-> "replayed order is not an interleaving of the jobs", order |-> Rec.order])>>)
-     /\ IF frec.n > 20 \/ ~reachable THEN TRUE
+     /\ IF frec.n > 20 \/ ~reachable \/ ~Rec.bind THEN TRUE
         ELSE LET s == ProcessT(frec.alldiags, ord) IN
              IF /\ [k \in 1..Len(s) |-> s[k].r.cid] = Rec.final
                 /\ [k \in 1..Len(s) |-> s[k].dup] = Rec.dup
@@ -111,12 +100,12 @@ TOrder ==
              ELSE PrintT(<<"DRIFT", fid, ToJson([what |-> "Report/SortReports/Dedup", oid |-> Rec.oid, order |-> Rec.order,
                                                   expected |-> [k \in 1..Len(s) |-> s[k].r.cid], observed |-> Rec.final,
                                                   expdup |-> [k \in 1..Len(s) |-> s[k].dup], obsdup |-> Rec.dup])>>)
-  /\ l' = l + 1 /\ UNCHANGED <<vars, fid, done2, frec, fby>>
+  /\ l' = l + 1 /\ UNCHANGED <<vars, fid, done2, frec, fby, ebase>>
 
 TBinFile ==
   /\ l <= Len(TraceLog) /\ Rec.ev = "BinFile"
   /\ fid' = Rec.id /\ frec' = Rec /\ base' = <<>> /\ fby' = <<>>
-  /\ l' = l + 1 /\ UNCHANGED <<vars, done2>>
+  /\ l' = l + 1 /\ UNCHANGED <<vars, done2, ebase>>
 
 TBin ==
   /\ l <= Len(TraceLog) /\ Rec.ev = "Bin" /\ Rec.id = fid
@@ -124,16 +113,16 @@ TBin ==
          diffs == IF Rec.base THEN {} ELSE {k \in 1..3 : base[k] # h[k]} IN
      /\ base' = IF Rec.base THEN h ELSE base
      /\ IF diffs = {} /\ ~Rec.race THEN TRUE
-        ELSE PrintT(<<"VIOL", fid, ToJson([cfg |-> frec.cfg, rules |-> frec.rules, two |-> frec.two, kinds |-> {},
+        ELSE PrintT(<<"VIOL", fid, ToJson([cfg |-> frec.cfg, rules |-> frec.rules, two |-> frec.two, grp |-> frec.grp, kinds |-> {},
                                            what |-> [binary |-> TRUE, outputs |-> diffs, race |-> Rec.race, workers |-> Rec.workers,
                                                      procs |-> Rec.procs, seed |-> Rec.seed]])>>)
-  /\ l' = l + 1 /\ UNCHANGED <<vars, fid, done2, frec, fby>>
+  /\ l' = l + 1 /\ UNCHANGED <<vars, fid, done2, frec, fby, ebase>>
 
 TDone ==
   /\ l = Len(TraceLog) + 1 /\ ~done2
   /\ done2' = TRUE /\ PrintT(<<"DONE", l - 1>>)
-  /\ UNCHANGED <<vars, l, fid, frec, base, fby>>
+  /\ UNCHANGED <<vars, l, fid, frec, base, ebase, fby>>
 
-TraceNext == TFile \/ TOrder \/ TBinFile \/ TBin \/ TDone
+TraceNext == TFile \/ TExec \/ TOrder \/ TBinFile \/ TBin \/ TDone
 TraceSpec == TraceInit /\ [][TraceNext]_tvars
 =============================================================================
